@@ -66,7 +66,7 @@ func readLQ(jobDir string) ([]lqRow, error) {
 func execCrash(input string) Result {
 	dir, err := os.MkdirTemp("", "zv-crash-")
 	if err != nil {
-		return Result{Term: "CC [] [] [] [] [] [] [] [] [] false false false 0 0 0", Tags: []string{"mktemp-failed"}}
+		return Result{Term: "CC [] [] [] [] [] [] [] [] [] false false false 0 0 0 false", Tags: []string{"mktemp-failed"}}
 	}
 	if os.Getenv("ZV_KEEP") == "" {
 		defer os.RemoveAll(dir)
@@ -254,9 +254,9 @@ func execCrash(input string) Result {
 	}
 	sort.Strings(left2)
 	complete2 := res2 != nil && res2.StopReturned && !res2.TimedOut && status2 == ""
-	term := fmt.Sprintf("CC %s %s %s %s %s %s %s %s %s %s %s %s %d %d %d", coqList(all), coqList(claimed), coqList(finished1), coqList(deleted1), coqList(preprocessed),
+	term := fmt.Sprintf("CC %s %s %s %s %s %s %s %s %s %s %s %s %d %d %d %s", coqList(all), coqList(claimed), coqList(finished1), coqList(deleted1), coqList(preprocessed),
 		coqList(fresh1), coqList(claimed1), coqList(fetched2), coqList(left2), coqBool(complete2), coqBool(sp.StopAt == nil), coqBool(sp.KillAt != nil),
-		missing+uncaptured, scan1.MidFileDefects, badFinish)
+		missing+uncaptured, scan1.MidFileDefects, badFinish, coqBool(sp.Seencheck))
 	mode := "kill"
 	point := "time"
 	switch {
